@@ -290,7 +290,7 @@ func (w *W) solveAll(res *Result, solver string, timeout, par int, only, keep st
 		base := w.assumes
 		if id != "no-crash" {
 			// executions in which the process panics are the business of the no-crash obligation
-			base = And(base, Not(w.crashed))
+			goal = And(Not(w.crashed), goal)
 		}
 		if len(wins) == 0 {
 			qs = append(qs, query{kind: "viol", id: id, pos: w.violPos[id], goal: goal, assume: base})
@@ -341,17 +341,171 @@ func (w *W) solveAll(res *Result, solver string, timeout, par int, only, keep st
 		dt      float64
 	}
 	answers := make([]ans, len(qs))
+	solved := make([]bool, len(qs))
+	runOne := func(q query, idx int) ans {
+		t0 := time.Now()
+		v, m, nv, n, vars, d := runQuery(q, solver, timeout, dir, idx)
+		return ans{v, m, nv, n, vars, d, time.Since(t0).Seconds()}
+	}
 	var wg sync.WaitGroup
 	sem := make(chan struct{}, par)
+	var mu sync.Mutex
+	// group 1: all ordinary obligations of the harness as one disjunction (unsat discharges them all at once;
+	// sat: the model tells which ones are violated, those are recorded and the rest is asked again)
+	wg.Add(1)
+	go func() {
+		defer wg.Done()
+		sem <- struct{}{}
+		defer func() { <-sem }()
+		var grp []int
+		for i, q := range qs {
+			if q.kind == "viol" && q.window == "" && !q.goal.IsFalse() {
+				grp = append(grp, i)
+			}
+		}
+		for round := 0; len(grp) > 1 && round < 6; round++ {
+			goal := False
+			for _, i := range grp {
+				goal = Or(goal, qs[i].goal)
+			}
+			a := runOne(query{kind: "viol", id: fmt.Sprintf("group%d", round), goal: goal, assume: qs[grp[0]].assume}, 900+round)
+			if a.verdict == "unsat" {
+				mu.Lock()
+				for _, i := range grp {
+					answers[i] = ans{verdict: "unsat", n: a.n, vars: a.vars, detail: a.detail + " (decided jointly with " + fmt.Sprint(len(grp)-1) + " other obligations)", dt: a.dt / float64(len(grp))}
+					solved[i] = true
+				}
+				mu.Unlock()
+				return
+			}
+			if a.verdict != "sat" {
+				return // inconclusive jointly: fall back to individual queries
+			}
+			ev := newEvaluator(a.model)
+			for id, v := range a.nodes {
+				ev.memo[id] = v
+			}
+			var rest []int
+			mu.Lock()
+			for _, i := range grp {
+				if ev.eval(qs[i].goal) != 0 {
+					answers[i] = ans{verdict: "sat", model: a.model, nodes: a.nodes, n: a.n, vars: a.vars, detail: a.detail, dt: a.dt}
+					solved[i] = true
+				} else {
+					rest = append(rest, i)
+				}
+			}
+			mu.Unlock()
+			if len(rest) == len(grp) {
+				return
+			}
+			grp = rest
+		}
+	}()
+	// group 2: all reachability witnesses at once (they are usually co-satisfiable)
+	wg.Add(1)
+	go func() {
+		defer wg.Done()
+		sem <- struct{}{}
+		defer func() { <-sem }()
+		var grp []int
+		goal := True
+		for i, q := range qs {
+			if q.kind == "reach" {
+				grp = append(grp, i)
+				goal = And(goal, q.goal)
+			}
+		}
+		if len(grp) < 2 {
+			return
+		}
+		a := runOne(query{kind: "reach", id: "reach-all", goal: goal, assume: qs[grp[0]].assume}, 950)
+		if a.verdict == "sat" {
+			mu.Lock()
+			for _, i := range grp {
+				answers[i] = ans{verdict: "sat", n: a.n, vars: a.vars, detail: a.detail + " (jointly)", dt: a.dt / float64(len(grp))}
+				solved[i] = true
+			}
+			mu.Unlock()
+		}
+	}()
+	// group 3: unwinding assertions and spawn caps as one disjunction
+	wg.Add(1)
+	go func() {
+		defer wg.Done()
+		sem <- struct{}{}
+		defer func() { <-sem }()
+		var grp []int
+		goal := False
+		for i, q := range qs {
+			if q.kind == "loop" {
+				grp = append(grp, i)
+				goal = Or(goal, q.goal)
+			}
+		}
+		if len(grp) < 2 {
+			return
+		}
+		a := runOne(query{kind: "loop", id: "loops-any", goal: goal, assume: qs[grp[0]].assume}, 960)
+		if a.verdict == "unsat" {
+			mu.Lock()
+			for _, i := range grp {
+				answers[i] = ans{verdict: "unsat", n: a.n, vars: a.vars, detail: a.detail + " (jointly)", dt: a.dt / float64(len(grp))}
+				solved[i] = true
+			}
+			mu.Unlock()
+		} else if a.verdict == "sat" {
+			ev := newEvaluator(a.model)
+			for id, v := range a.nodes {
+				ev.memo[id] = v
+			}
+			mu.Lock()
+			for _, i := range grp {
+				if ev.eval(qs[i].goal) != 0 {
+					answers[i] = ans{verdict: "sat", n: a.n, vars: a.vars, detail: a.detail, dt: a.dt}
+					solved[i] = true
+				} else if len(grp) > 6 {
+					answers[i] = ans{verdict: "unknown", detail: "not checked individually"}
+					solved[i] = true
+				}
+			}
+			mu.Unlock()
+		}
+	}()
+	// individual queries that the groups do not cover run alongside
 	for i := range qs {
+		q := qs[i]
+		inGroup := (q.kind == "viol" && q.window == "" && !q.goal.IsFalse()) || q.kind == "reach" || q.kind == "loop"
+		if inGroup {
+			continue
+		}
 		wg.Add(1)
 		go func(i int) {
 			defer wg.Done()
 			sem <- struct{}{}
 			defer func() { <-sem }()
-			t0 := time.Now()
-			v, m, nv, n, vars, d := runQuery(qs[i], solver, timeout, dir, i)
-			answers[i] = ans{v, m, nv, n, vars, d, time.Since(t0).Seconds()}
+			a := runOne(qs[i], i)
+			mu.Lock()
+			answers[i] = a
+			solved[i] = true
+			mu.Unlock()
+		}(i)
+	}
+	wg.Wait()
+	// whatever the groups left open is asked individually
+	for i := range qs {
+		if solved[i] {
+			continue
+		}
+		wg.Add(1)
+		go func(i int) {
+			defer wg.Done()
+			sem <- struct{}{}
+			defer func() { <-sem }()
+			a := runOne(qs[i], i)
+			mu.Lock()
+			answers[i] = a
+			mu.Unlock()
 		}(i)
 	}
 	wg.Wait()
@@ -379,6 +533,9 @@ func (w *W) solveAll(res *Result, solver string, timeout, par int, only, keep st
 				loopVerdict[q.id] = "fails"
 			default:
 				loopVerdict[q.id] = "unknown"
+				if a.detail == "not checked individually" {
+					loopVerdict[q.id] = "not checked individually (some other bound of this harness is reachable)"
+				}
 			}
 		}
 	}
@@ -449,6 +606,26 @@ func (w *W) extractCex(model map[string]uint64, nodes map[int]uint64) *Cex {
 				c.Bursts = append(c.Bursts, [2]int{e.thread, 1})
 				last = e.thread
 			}
+		}
+	}
+	for _, e := range w.standing {
+		if ev.eval(e.exec) != 0 {
+			st := "can run"
+			if ev.eval(e.blocked) != 0 {
+				st = "blocked"
+			}
+			c.Final = append(c.Final, fmt.Sprintf("T%d stands before %s at %s (%s) [%s]", e.thread, e.kind, e.pos, e.fn, st))
+		}
+	}
+	for _, t := range w.threads {
+		if ev.eval(t.spawned) == 0 {
+			continue
+		}
+		if ev.eval(t.finished) != 0 {
+			c.Final = append(c.Final, fmt.Sprintf("T%d finished", t.id))
+		}
+		if ev.eval(t.truncated) != 0 {
+			c.Final = append(c.Final, fmt.Sprintf("T%d beyond an unwinding/spawn bound", t.id))
 		}
 	}
 	for _, cr := range w.crashes {
